@@ -288,6 +288,71 @@ def monitor(c, out):
     return None
 
 
+# --------------------------------------------------------------------- shrinking a failing history
+def drop_op(ops, i):
+    """ops without op i; malloc numbers are renumbered, ops that referred to a removed malloc go too"""
+    gone = set()
+    out = []
+    nm = 0
+    ren = {}
+    for j, o in enumerate(ops):
+        is_m = o[0] in ('m', 'g')
+        if j == i:
+            if is_m:
+                gone.add(nm)
+                nm += 1
+            continue
+        if o[0] in ('f', 'd'):
+            if o[1] in gone:
+                continue
+            out.append([o[0], ren[o[1]]])
+        elif o[0] == 'g':
+            if o[2] in gone:
+                out.append(['m', o[1]])
+            else:
+                out.append(['g', o[1], ren[o[2]]])
+        else:
+            out.append(list(o))
+        if is_m:
+            ren[nm] = sum(1 for x in out if x[0] in ('m', 'g')) - 1
+            nm += 1
+    return out
+
+
+def shrink(case, sig, budget=120):
+    """greedy minimisation of a failing history (re-running the real code); keeps the signature"""
+    def fails(c):
+        try:
+            o = core.run_driver('heap_driver.py', [c])[0]
+        except Exception:
+            return False
+        m = monitor(c, o)
+        return bool(m) and m[0] == sig
+    best = case
+    # cut after the op the monitor complained about, then remove ops one by one
+    n = len(best['ops'])
+    lo = 1
+    while lo < n and budget > 0:
+        budget -= 1
+        c = dict(best, ops=best['ops'][:lo])
+        if fails(c):
+            best = c
+            break
+        lo = min(n, lo * 2)
+    changed = True
+    while changed and budget > 0:
+        changed = False
+        i = len(best['ops']) - 1
+        while i >= 0 and budget > 0:
+            budget -= 1
+            c = dict(best, ops=drop_op(best['ops'], i))
+            if len(c['ops']) < len(best['ops']) and fails(c):
+                best = c
+                changed = True
+            i -= 1
+    return best
+
+
 # --------------------------------------------------------------------- run
 def judge(res, cases, outs, tag):
     skipped = sum(1 for o in outs if o.get('skipped'))
@@ -304,6 +369,13 @@ def judge(res, cases, outs, tag):
         m = monitor(c, o)
         if m:
             alarmed += 1
+            if alarmed == 1 and not c.get('real'):
+                small = shrink(c, m[0])
+                if small is not c:
+                    o2 = core.run_driver('heap_driver.py', [small])[0]
+                    m2 = monitor(small, o2)
+                    if m2 and m2[0] == m[0]:
+                        c, o, m = small, o2, m2
             res.alarms.append(dict(signature=m[0], what='%s; history %s' % (m[1], json.dumps(c)[:600]),
                                    replay=dict(case=c, impl=o)))
         elif i in bad:
@@ -357,6 +429,35 @@ def real_arena(res, n):
                 rule='real mmap arenas with byte patterns (thorough)')
 
 
+def threads_scenario(res, n):
+    """thorough: real threads on one heap; the final state must be a partition with coalesced free blocks and
+    consistent indexes, and the live set must be exactly what the threads still hold"""
+    cases = [dict(threads=4, n=1500, seed=res.seed * 100 + i, pg=64, size=64) for i in range(n)]
+    outs = core.run_driver('heap_driver.py', cases)
+    for c, o in zip(cases, outs):
+        s = o['snap']
+        bad = None
+        if o['errors'] or any(o['alive']):
+            bad = ('C14:valid-op-raised', 'threads: %s alive=%s' % (o['errors'][:3], o['alive']))
+        else:
+            g = gaps(s['arenas'], s['alloc'])
+            free = sorted(tuple(b) for _, seq in s['l2s'] for b in seq)
+            if g is None:
+                bad = ('C14:overlap', 'threads: live blocks overlap: %s' % s['alloc'][:20])
+            elif sorted(map(tuple, s['alloc'])) != sorted(map(tuple, o['live'])):
+                bad = ('C14:live-set-wrong', 'threads: _allocated_blocks differs from the blocks the threads hold')
+            elif free != sorted(g) or s['pending']:
+                bad = ('C14:free-list-not-the-gaps', 'threads: free blocks %s, maximal free extents %s' % (free[:10], sorted(g)[:10]))
+            elif sorted((tuple(k), tuple(b)) for k, b in s['s2b']) != sorted(((b[0], b[1]), b) for b in free) or \
+                    sorted((tuple(k), tuple(b)) for k, b in s['e2b']) != sorted(((b[0], b[2]), b) for b in free) or \
+                    s['lengths'] != sorted({b[2] - b[1] for b in free}):
+                bad = ('C14:indexes-disagree', 'threads: indexes disagree')
+        if bad:
+            res.alarms.append(dict(signature=bad[0], what=bad[1], replay=dict(case=c, impl=dict(snap=s))))
+    res.add_cov(evaluations=len(cases), traces=len(cases), real_thread_scenarios=len(cases),
+                rule='4 real threads x 1500 malloc/free on one heap, final state judged (thorough)')
+
+
 def run(res):
     res.proof_step('Props/C14.v', extra_targets=['Model/Heap.vo'], kernels_needed=['K_heap', 'G_heap'])
     if res.tier == 'quick':
@@ -368,6 +469,7 @@ def run(res):
     correspond(res, n, lc, lo)
     if res.tier != 'quick':
         real_arena(res, 300)
+        threads_scenario(res, 6)
     res.assumptions += [
         'the heap lock serialises malloc/free; a free that finds it taken only appends to the pending list (FreeDeferred)',
         'list.append / list.pop on the pending list are atomic under the GIL',
@@ -385,6 +487,9 @@ def replay(path):
         return 1
     c = d['replay']['case']
     out = core.run_driver('heap_driver.py', [c])[0]
+    if 'threads' in c:
+        print('thread scenario re-run; final state:', json.dumps(out['snap'])[:2000], out['errors'])
+        return 0
     print('case:', json.dumps(c))
     print('implementation now:', json.dumps(out['obs']))
     m = monitor(c, out)
